@@ -15,14 +15,16 @@ import Midgard.Model.H5Attr
 namespace Midgard.H5
 open Midgard.Dataset
 
-/-- the attributes of a group that matter for the round trip -/
+/-- the attributes of a group that matter for the round trip.  Field names are kept as their dot
+separated components (`"c.p1"` is `["c", "p1"]`): the code joins and splits them with `"."`, which is
+injective as long as no component contains a dot (field names cannot: a dot makes a collection). -/
 structure GAttrs where
-  fieldname : String := ""
+  fieldname : Path := []
   unit : Option (List String) := none        -- `unit` (`""` for None, else the encoded tuple)
   level : Nat := 3                           -- `write_level`
-  other : Option String := none              -- reference to another field's data by name
-  refPos : Option String := none
+  ref : Option Path := none                  -- the `other` / `ref_pos` attribute: a reference by field name
   members : List (String × Option Kind) := []  -- the `fields` dict of a collection (none = collection)
+  src : Nat := 0                             -- *ghost*: the heap id of the array written here (never read)
   deriving Repr, Inhabited
 
 inductive Grp
@@ -39,71 +41,66 @@ structure File where
   groups : List (String × Grp) := []
   deriving Repr, Inhabited
 
-abbrev WMemo := List (Nat × String)
+abbrev WMemo := List (Nat × Path)
 
-def dotted (pre nm : String) : String := if pre.isEmpty then nm else pre ++ "." ++ nm
+/-- the one attribute an array class writes: `other` for `PositionArray` / `PosVelArray`
+(`_attributes()`), `ref_pos` for the delta classes, nothing for the others -/
+def attrName (k : Kind) : Option String :=
+  if k.hasOther then some "other" else if k.isDelta then some "ref_pos" else none
+
+def _root_.Midgard.Dataset.Obj.ref (ob : Obj) : Option Nat :=
+  if ob.kind.hasOther then ob.other else if ob.kind.isDelta then ob.refPos else none
+
+def _root_.Midgard.Dataset.Obj.strip (ob : Obj) : Obj := { ob with other := none, refPos := none }
+
+def _root_.Midgard.Dataset.Obj.withRef (ob : Obj) (r : Option Nat) : Obj :=
+  if ob.kind.hasOther then { ob with other := r } else { ob with refPos := r }
 
 /-! ### write -/
 
-/-- one attribute (`other` / `ref_pos`) of `PositionArray._write` & co.: a reference by name when the
-object is known to the memo, else an embedded sub-group `a` whose `fieldname` is the full dotted name
-`"<fieldname>.<a>"` (after the `fix:`; it is also the name the memo gets *before* the recursive
-`_write`, and the name the array inside the sub-group is stored under). -/
-def writeAttr (rec : Nat → String → WMemo → M (Grp × WMemo)) (fieldname nm : String) (r : Option Nat)
-    (memo : WMemo) : M (Option String × List (String × Grp) × WMemo) :=
-  match r with
-  | none => .ok (none, [], memo)
-  | some a =>
-    match memo.lookup a with
-    | some name => .ok (some name, [], memo)
-    | none =>
-      match rec a (dotted fieldname nm) ((a, dotted fieldname nm) :: memo) with
-      | .error e => .error e
-      | .ok (g, memo') => .ok (none, [(nm, g)], memo')
-
-/-- `<array>._write(h5_group, memo)` into a group whose `fieldname` attribute is `fieldname` -/
-def writeArr (h : Heap) : Nat → Nat → String → WMemo → M (Grp × WMemo)
+/-- `<array>._write(h5_group, memo)` into a group whose `fieldname` attribute is `p`.
+The attribute is written as a reference by name when the object is known to the memo, else as an
+embedded sub-group whose `fieldname` is the full name `p + [attr]` (after the `fix:`; it is the name
+the memo gets *before* the recursive `_write`); finally `memo[id(self)] = fieldname`. -/
+def writeArr (h : Heap) : Nat → Nat → Path → WMemo → M (Grp × WMemo)
   | 0, _, _, _ => .error .fuel
-  | fuel + 1, o, fieldname, memo =>
+  | fuel + 1, o, p, memo =>
     match h[o]? with
     | none => .error .dangling
     | some ob =>
-      let payload : Obj := { ob with other := none, refPos := none }
-      if !(ob.kind.hasOther || ob.kind.isDelta) then
-        .ok (.mk { fieldname := fieldname } (some payload) [], memo)
-      else
-        match (if ob.kind.hasOther then writeAttr (writeArr h fuel) fieldname "other" ob.other memo
-               else .ok (none, [], memo)) with
-        | .error e => .error e
-        | .ok (oth, subs1, memo1) =>
-          match (if ob.kind.isDelta then writeAttr (writeArr h fuel) fieldname "ref_pos" ob.refPos memo1
-                 else .ok (none, [], memo1)) with
-          | .error e => .error e
-          | .ok (rp, subs2, memo2) =>
-            -- `memo[id(self)] = h5_group.attrs["fieldname"]`
-            .ok (.mk { fieldname := fieldname, other := oth, refPos := rp } (some payload) (subs1 ++ subs2),
-                 (o, fieldname) :: memo2)
+      match attrName ob.kind with
+      | none => .ok (.mk { fieldname := p, src := o } (some ob.strip) [], memo)
+      | some nm =>
+        match ob.ref with
+        | none => .ok (.mk { fieldname := p, src := o } (some ob.strip) [], (o, p) :: memo)
+        | some a =>
+          match memo.lookup a with
+          | some name => .ok (.mk { fieldname := p, src := o, ref := some name } (some ob.strip) [], (o, p) :: memo)
+          | none =>
+            match writeArr h fuel a (p ++ [nm]) ((a, p ++ [nm]) :: memo) with
+            | .error e => .error e
+            | .ok (g, memo') => .ok (.mk { fieldname := p, src := o } (some ob.strip) [(nm, g)], (o, p) :: memo')
 
 def Field.level : Field → Nat
   | .leaf _ _ _ _ _ l => l
   | .coll _ _ l _ => l
 
-/-- `FieldType.write` / `CollectionField.write` of one field into the group `pre.name` -/
-def writeField (h : Heap) (lvl : Nat) : Field → String → WMemo → M (Grp × WMemo)
+/-- `FieldType.write` / `CollectionField.write` of one field into the group `pre + [name]` -/
+def writeField (h : Heap) (lvl : Nat) : Field → Path → WMemo → M (Grp × WMemo)
   | .leaf nm _ o _ u l, pre, memo =>
-    let fieldname := dotted pre nm
-    match writeArr h (h.length + 1) o fieldname memo with
+    match writeArr h (h.length + 1) o (pre ++ [nm]) memo with
     | .error e => .error e
     | .ok (.mk a p subs, memo') =>
-      let memo'' := if (memo'.lookup o).isNone then (o, fieldname) :: memo' else memo'
+      -- `if id(self.data) not in memo: memo[id(self.data)] = fieldname`
+      let memo'' := if (memo'.lookup o).isNone then (o, pre ++ [nm]) :: memo' else memo'
       .ok (.mk { a with unit := u, level := l } p subs, memo'')
   | .coll nm _ l fs, pre, memo =>
-    match writeFields fs (dotted pre nm) memo with
+    match writeFields fs (pre ++ [nm]) memo with
     | .error e => .error e
-    | .ok (subs, mem, memo') => .ok (.mk { fieldname := nm, level := l, members := mem } none subs, memo')
+    | .ok (subs, mem, memo') => .ok (.mk { fieldname := [nm], level := l, members := mem } none subs, memo')
 where
   /-- the loop over the fields of a collection: only `write_level >= lvl` -/
-  writeFields : List Field → String → WMemo → M (List (String × Grp) × List (String × Option Kind) × WMemo)
+  writeFields : List Field → Path → WMemo → M (List (String × Grp) × List (String × Option Kind) × WMemo)
     | [], _, memo => .ok ([], [], memo)
     | f :: fs, pre, memo =>
       if Field.level f < lvl then writeFields fs pre memo else
@@ -119,18 +116,18 @@ where
           .ok ((f.name, g) :: subs, (f.name, ty) :: mem, memo2)
 
 /-- `Dataset._construct_memo` (after the `fix:`: only the fields that will be written, with their full
-dotted names, collections recursively); a later field of the same object wins -/
-def constructMemo (lvl : Nat) : List Field → String → WMemo → WMemo
+names, collections recursively); a later field of the same object wins -/
+def constructMemo (lvl : Nat) : List Field → Path → WMemo → WMemo
   | [], _, memo => memo
   | f :: fs, pre, memo =>
     if Field.level f < lvl then constructMemo lvl fs pre memo else
     match f with
-    | .leaf nm _ o _ _ _ => constructMemo lvl fs pre ((o, dotted pre nm) :: memo)
-    | .coll nm _ _ sub => constructMemo lvl fs pre (constructMemo lvl sub (dotted pre nm) memo)
+    | .leaf nm _ o _ _ _ => constructMemo lvl fs pre ((o, pre ++ [nm]) :: memo)
+    | .coll nm _ _ sub => constructMemo lvl fs pre (constructMemo lvl sub (pre ++ [nm]) memo)
 
 /-- `Dataset.write(path, write_level)` -/
 def writeDS (h : Heap) (d : DS) (lvl : Nat) : M File :=
-  match writeField.writeFields h lvl d.fields "" (constructMemo lvl d.fields "" []) with
+  match writeField.writeFields h lvl d.fields [] (constructMemo lvl d.fields [] []) with
   | .error e => .error e
   | .ok (groups, mem, _) => .ok { numObs := d.numObs, members := mem, groups := groups }
 
@@ -138,85 +135,75 @@ def writeDS (h : Heap) (d : DS) (lvl : Nat) : M File :=
 
 structure RSt where
   heap : Heap := []
-  memo : List (String × Nat) := []
+  memo : List (Path × Nat) := []
   deriving Repr, Inhabited
 
 def RSt.alloc (s : RSt) (o : Obj) : Nat × RSt := (s.heap.length, { s with heap := s.heap ++ [o] })
-def RSt.set (s : RSt) (k : String) (v : Nat) : RSt := { s with memo := (k, v) :: s.memo }
+def RSt.set (s : RSt) (k : Path) (v : Nat) : RSt := { s with memo := (k, v) :: s.memo }
 
 /-- `h5_file["a/b/c"]` -/
-def lookupGrp : List (String × Grp) → List String → Option Grp
+def lookupGrp : List (String × Grp) → Path → Option Grp
   | _, [] => none
-  | gs, [n] => gs.lookup n
   | gs, n :: rest =>
     match gs.lookup n with
-    | some (.mk _ _ subs) => lookupGrp subs rest
     | none => none
+    | some g => if rest.isEmpty then some g else lookupGrp g.subs rest
 
-/-- one attribute of `PositionArray._read` & co. (after the `fix:` the named field is looked up from
-the top of the file) -/
-def readAttr (file : File) (rec : Grp → RSt → M (Nat × RSt)) (fieldname nm : String) (ref : Option String)
-    (subs : List (String × Grp)) (s : RSt) : M (Option Nat × RSt) :=
-  match ref with
-  | some name =>
-    match s.memo.lookup name with
-    | some o => .ok (some o, s)
-    | none =>
-      match lookupGrp file.groups (name.splitOn ".") with
-      | none => .error .attribute          -- KeyError
-      | some g =>
-        match rec g s with
-        | .error e => .error e
-        | .ok (o, s') => .ok (some o, s'.set name o)
-  | none =>
-    match subs.lookup nm with
-    | some g =>
-      match rec g s with
-      | .error e => .error e
-      | .ok (o, s') => .ok (some o, s'.set (dotted fieldname nm) o)
-    | none => .ok (none, s)
-
-/-- `<Array>._read(h5_group, memo)` -/
+/-- `<Array>._read(h5_group, memo)`.  The attribute is a reference by name (looked up from the top of
+the file when the memo does not know it yet) or an embedded sub-group (read unless the memo already
+knows `fieldname + [attr]`); the array itself is registered under its `fieldname`. -/
 def readArr (file : File) : Nat → Grp → RSt → M (Nat × RSt)
   | 0, _, _ => .error .fuel
   | fuel + 1, .mk a payload subs, s =>
     match payload with
     | none => .error .dangling
     | some ob =>
-      if ob.kind.hasOther || ob.kind.isDelta then
-        match (if ob.kind.hasOther then readAttr file (readArr file fuel) a.fieldname "other" a.other subs s
-               else .ok (none, s)) with
-        | .error e => .error e
-        | .ok (oth, s1) =>
-          match (if ob.kind.isDelta then readAttr file (readArr file fuel) a.fieldname "ref_pos" a.refPos subs s1
-                 else .ok (none, s1)) with
-          | .error e => .error e
-          | .ok (rp, s2) =>
-            if ob.kind.isDelta && rp.isNone then .error .unsupported else   -- a delta needs its ref_pos
-            let (o, s3) := s2.alloc { ob with other := oth, refPos := rp }
-            .ok (o, s3.set a.fieldname o)
-      else
+      match attrName ob.kind with
+      | none =>
         let (o, s1) := s.alloc ob
         -- `TimeBase._read` registers the object under its field name; the plain kinds do not
         .ok (o, if ob.kind == .time || ob.kind == .timeDelta then s1.set a.fieldname o else s1)
+      | some nm =>
+        let target : Option (Path × Option Grp) :=
+          match a.ref with
+          | some name => some (name, lookupGrp file.groups name)
+          | none => match subs.lookup nm with
+            | some g => some (a.fieldname ++ [nm], some g)
+            | none => none
+        let refR : M (Option Nat × RSt) :=
+          match target with
+          | none => .ok (none, s)
+          | some (name, og) =>
+            match s.memo.lookup name with
+            | some o => .ok (some o, s)
+            | none =>
+              match og with
+              | none => .error .attribute          -- KeyError
+              | some g =>
+                match readArr file fuel g s with
+                | .error e => .error e
+                | .ok (o, s') => .ok (some o, s'.set name o)
+        match refR with
+        | .error e => .error e
+        | .ok (r, s1) =>
+          if ob.kind.isDelta && r.isNone then .error .unsupported else   -- a delta needs its ref_pos
+          let (o, s2) := s1.alloc (ob.withRef r)
+          .ok (o, s2.set a.fieldname o)
 
 /-- `unit`: `""` and tuples of empty strings read back as None (`if not any(field._unit)`) -/
 def readUnit : Option (List String) → Option (List String)
   | none => none
   | some us => if us.any (fun u => !u.isEmpty) then some us else none
 
-def lastName (s : String) : String := (s.splitOn ".").getLastD s
-
-def lookupSub : List (String × Grp) → String → Option Grp
-  | [], _ => none
-  | (n, g) :: r, nm => if n == nm then some g else lookupSub r nm
+/-- `name.split(".")[-1]` -/
+def lastName (p : Path) : String := p.getLastD ""
 
 /-- the loop of `CollectionField.read` over the `fields` attribute: `h5_group[fieldname]` each -/
 def readMembers (rd : Option Kind → Grp → RSt → M (Field × RSt)) :
     List (String × Option Kind) → List (String × Grp) → RSt → M (List Field × RSt)
   | [], _, s => .ok ([], s)
   | (nm, ty) :: rest, subs, s =>
-    match lookupSub subs nm with
+    match subs.lookup nm with
     | none => .error .attribute
     | some g =>
       match rd ty g s with
@@ -226,42 +213,46 @@ def readMembers (rd : Option Kind → Grp → RSt → M (Field × RSt)) :
         | .error e => .error e
         | .ok (fs, s2) => .ok (f :: fs, s2)
 
-/-- `FieldType.read` / `CollectionField.read` (the first argument bounds the nesting depth) -/
-def readField (file : File) : Nat → Option Kind → Grp → RSt → M (Field × RSt)
+/-- `FieldType.read` / `CollectionField.read`; `fa` bounds the length of reference chains, the second
+argument the nesting depth of collections -/
+def readField (file : File) (fa : Nat) : Nat → Option Kind → Grp → RSt → M (Field × RSt)
   | 0, _, _, _ => .error .fuel
   | _ + 1, some k, .mk a p subs, s =>
     -- `if name in memo: val = memo[name] else: val = <Array>._read(h5_group, memo)`
     let r : M (Nat × RSt) := match s.memo.lookup a.fieldname with
       | some o => .ok (o, s)
-      | none => readArr file (file.groups.length + 1 + 64) (.mk a p subs) s
+      | none => readArr file fa (.mk a p subs) s
     match r with
     | .error e => .error e
     | .ok (o, s') => .ok (.leaf (lastName a.fieldname) k o (objLen s'.heap o) (readUnit a.unit) a.level, s')
   | depth + 1, none, .mk a _ subs, s =>
-    match readMembers (readField file depth) a.members subs s with
+    match readMembers (readField file fa depth) a.members subs s with
     | .error e => .error e
-    | .ok (fs, s') => .ok (.coll a.fieldname file.numObs a.level fs, s')
+    | .ok (fs, s') => .ok (.coll (lastName a.fieldname) file.numObs a.level fs, s')
 
-/-- `Dataset.read(path)`: the fields in the order of the `fields` attribute; after each one
-`memo[fieldname] = field.data` -/
-def readTop (file : File) : List (String × Option Kind) → RSt → M (List Field × RSt)
+/-- after a top-level field: `memo[fieldname] = field.data` -/
+def regTop (nm : String) (f : Field) (s : RSt) : RSt :=
+  match f with
+  | .leaf _ _ o _ _ _ => s.set [nm] o
+  | .coll .. => s
+
+/-- `Dataset.read(path)`: the fields in the order of the `fields` attribute -/
+def readTop (file : File) (fa fd : Nat) : List (String × Option Kind) → RSt → M (List Field × RSt)
   | [], s => .ok ([], s)
   | (nm, ty) :: rest, s =>
     match file.groups.lookup nm with
     | none => .error .attribute
     | some g =>
-      match readField file 64 ty g s with
+      match readField file fa fd ty g s with
       | .error e => .error e
       | .ok (f, s1) =>
-        let s2 := match f with
-          | .leaf _ _ o _ _ _ => s1.set nm o
-          | .coll .. => s1
-        match readTop file rest s2 with
+        match readTop file fa fd rest (regTop nm f s1) with
         | .error e => .error e
         | .ok (fs, s3) => .ok (f :: fs, s3)
 
-def readDS (file : File) : M (Heap × DS) :=
-  match readTop file file.members {} with
+/-- `Dataset.read`; the two bounds only have to be large enough (`read_write`) -/
+def readDS (fa fd : Nat) (file : File) : M (Heap × DS) :=
+  match readTop file fa fd file.members {} with
   | .error e => .error e
   | .ok (fs, s) => .ok (s.heap, { numObs := file.numObs, fields := fs })
 
